@@ -125,6 +125,11 @@ func (s *Sorter) Reset() {
 		s.chunks = s.chunks[:0]
 	}
 	if s.cleanups != nil {
+		// the spill files of the previous input are of no use any more and
+		// nobody can remove them once the list is gone
+		for _, f := range s.cleanups {
+			f()
+		}
 		s.cleanups = s.cleanups[:0]
 	}
 }
